@@ -935,7 +935,8 @@ def probe_system(case, gaps, loose, max_cells=3):
     obs = run_system(case, solve_hook=hook)
     h = obs.get("hook") or {}
     if h.get("stage"):
-        return (f"{h['key']}: {h['why']} - returned by the real solver and extract_solution for {h['stage']} "
+        pre = "" if h["stage"].startswith("the optimisation problem") else "probe/"
+        return (f"{pre}{h['key']}: {h['why']} - returned by the real solver and extract_solution for {h['stage']} "
                 f"(the captured system does not bound the occupancy of cells {gaps})")
     return None
 
@@ -1019,7 +1020,7 @@ def probe_run(case, k, gaps, loose, max_cells=3):
     r = c10.check_result(obs["die"], obs["mods0"], res["mods"], res["cells"], c10.TOL)
     if not r:
         return None
-    return (f"{r[0]}: {r[1]} - returned by the real solver and extract_solution at optimisation {k + 1} of the run for "
+    return (f"probe/{r[0]}: {r[1]} - returned by the real solver and extract_solution at optimisation {k + 1} of the run for "
             f"the variables, bounds and equations the code built, with the objective replaced by 'maximise the "
             f"occupancy of {res['target'][0]} {res['target'][1]}' (the captured system does not bound the occupancy of "
             f"cells {gaps})")
